@@ -6,6 +6,7 @@ TheStruct == Struct(<<P(S(<<"F">>), S(<<"f", "v">>)), P(S(<<"G">>), L(<<I(7), I(
                       P(S(<<"P">>), Ptr(Inner)), P(S(<<"Fn">>), Func("M0"))>>)
 Roots == [ rmap |-> M(<<P(S(<<"k">>), S(<<"m", "v">>)), P(S(<<"n">>), I(5)), P(S(<<"l">>), L(<<I(1), I(2)>>)), P(S(<<"st">>), TheStruct),
                         P(S(<<"z">>), Nil), P(S(<<"np">>), NilPtr)>>),
+           rmapa |-> M(<<P(S(<<"k">>), S(<<"a", "v">>)), P(S(<<"n">>), I(3)), P(S(<<"l">>), L(<<I(4)>>))>>),     \* a map whose key type is an interface (string keys in it)
            rmapi |-> MapI(<<P(I(1), S(<<"o", "n", "e">>)), P(I(2), S(<<"t", "w", "o">>))>>),
            rlist |-> L(<<I(10), I(11), L(<<I(30)>>)>>),
            rarr |-> Arr(<<I(20), I(21)>>),
@@ -18,7 +19,7 @@ Roots == [ rmap |-> M(<<P(S(<<"k">>), S(<<"m", "v">>)), P(S(<<"n">>), I(5)), P(S
            fsum |-> Func("sum"), fcat |-> Func("cat"), fanyv |-> Func("anyv"), fctx |-> Func("ctx"), fctxv |-> Func("ctxv"), fptr |-> Func("ptrarg"), fnilv |-> Func("nilv"),
            remb |-> V("struct", 1, <<>>, <<P(S(<<"F">>), S(<<"e", "v">>))>>),       \* embeds a nil pointer: the fields that would promote (Q) do not exist
            fnil |-> Func("nilres"), fm1 |-> Func("M1"), fme |-> Func("ME") ]
-RootNames == <<"rmap", "rmapi", "rlist", "rarr", "rstruct", "rptr", "rnilptr", "rint", "rstr", "rbool", "rnope",
+RootNames == <<"rmap", "rmapa", "rmapi", "rlist", "rarr", "rstruct", "rptr", "rnilptr", "rint", "rstr", "rbool", "rnope",
                "fsum", "fcat", "fanyv", "fctx", "fctxv", "fnil", "fm1", "fme", "fptr", "fnilv", "remb">>
 
 NoCall(st) == st @@ [call |-> FALSE, args |-> <<>>]
